@@ -62,23 +62,30 @@ RULE["C10"] += "; in 35 % of the equivalence cases the run with absence is pause
 RULE["C16"] += "; every stage case also reads the same file a second time after the first restored project was changed (must restore the same project again) and writes the same objects a second time after an absence insertion / log reversal / absence removal (the restored logs must equal the live ones)"
 RULE["C18"] += "; 30 % of the models contain idle parts (team without workers, workplace without facilities, component without tasks)"
 RULE["C20"] += "; every second case re-uses one result path per worker process (files rewritten in place, also with refused projects)"
+RULE["C05"] += "; every third case uses the project again after the verdict: a plain second run, write_simple_json + read_simple_json into the SAME BaseProject object and a run, or continuing the finished project (same verdicts demanded of the later call)"
+RULE["C11"] += "; in half of the direct batches the same objects are sorted again (1-2 more rounds) after their keys changed: skills edited in place or replaced, rates, main workplace IDs, est/lst/work amounts, task logs appended / replaced / edited in the middle / reversed, placed components added and removed; every 4th simulated model is edited in place and simulated again under the same wrappers"
+RULE["C12"] += "; in 35 % of the standalone updates the network itself changes between two updates (new FS link, new task before/behind an existing one, work amount set) and every 4th simulated model is edited (work amounts, new FS links) and simulated again"
+RULE["C17"] += "; every second case takes the forward reference from ANOTHER fresh model, so that backward_simulate() is the very first run of the objects; 20 % of the conveyor links are given to the BaseWorkplace constructor (one-sided)"
+RULE["C19"] += "; after each encoder check the same object is asked again 0-3 times after its log changed IN PLACE (entries overwritten, appended, inserted, deleted, reversed, cleared) or with another margin; the state queries are asked again 0-2 times after in-place log changes, a new member and other times"
+for _p in RULE:
+    RULE[_p] += " [generator-wide: individual and project absence lists unsorted in 25 % and with a repeated entry in 5 % of the draws; 6 % of the random models repeat a task name]"
 # minimal number of non-trivial cases / monitor evaluations for a conclusive run: (counter, quick, thorough)
 FLOORS = {
     "C01": [("C01.transitions", 2000, 50000), ("C01.nonFS_active", 100, 3000)],
     "C02": [("C02.balances", 20000, 500000), ("C02.multi_worker_balances", 100, 3000), ("resume_with_parameter_edits", 25, 600), ("json_resumed_runs", 15, 400)],
     "C03": [("C03.resource_checks", 20000, 500000), ("C03.contention_steps", 200, 5000), ("json_resumed_runs", 15, 400), ("simulate_after_backward_runs", 15, 400)],
     "C04": [("C04.new_worker_allocations", 1000, 30000), ("C04.alloc_with_ineligible_free_candidate", 100, 3000)],
-    "C05": [("C05.feasible_runs", 600, 20000), ("C05.unservable_runs", 100, 3000), ("C05.status_checks", 1000, 30000)],
-    "C11": [("C11.sort_calls", 20000, 500000), ("C11.sort_calls_with_distinct_keys", 5000, 100000), ("C11.contention_situations", 50, 1500), ("C11.contention_pairs", 50, 1500)],
-    "C12": [("C12.updates", 10000, 300000), ("C12.updates_after_cpl_change", 500, 15000)],
+    "C05": [("C05.feasible_runs", 600, 20000), ("C05.unservable_runs", 100, 3000), ("C05.status_checks", 1000, 30000), ("C05.later_calls.reload", 80, 2500)],
+    "C11": [("C11.sort_calls", 20000, 500000), ("C11.sort_calls_with_distinct_keys", 5000, 100000), ("C11.contention_situations", 50, 1500), ("C11.contention_pairs", 50, 1500), ("C11.resort_after_change_batches", 2000, 50000)],
+    "C12": [("C12.updates", 10000, 300000), ("C12.updates_after_cpl_change", 500, 15000), ("C12.structure_edits.newtask", 100, 3000)],
     "C08": [("C08.length_checks", 100000, 3000000), ("C08.entry_checks", 50000, 1500000), ("C08.ops", 1500, 50000)],
     "C09": [("C09.comparisons", 2000, 100000), ("C09.distinct_set_orders", 800, 40000), ("C09.fresh_process_runs", 60, 1500), ("C09.edit_and_resimulate_runs", 100, 3000)],
     "C10": [("C10.absence_task_checks", 5000, 150000), ("C10.equivalence_comparisons", 300, 10000), ("C10.individual_absence_checks", 50, 1500), ("C10.equivalence_paused_and_resumed", 40, 1000)],
     "C18": [("C18.edits", 1500, 50000), ("C18.log_delta_checks", 50000, 1500000), ("C18.roundtrip_comparisons", 150, 5000)],
     "C15": [("C15.memory_resumes", 1000, 60000), ("C15.json_resumes", 200, 10000), ("C15.pauses_inside_run_with_working_task", 200, 20000)],
     "C16": [("C16.roundtrip_comparisons", 300, 8000), ("C16.reference_checks", 10000, 300000), ("C16.resimulations", 50, 1500), ("C16.param_observed_relevant", 15, 400), ("C16.second_reads_of_same_file", 200, 6000), ("C16.second_writes", 200, 6000)],
-    "C17": [("C17.faults_raised_and_propagated", 1000, 100000), ("C17.structure_checks", 1000, 100000), ("C17.forward_comparisons", 1000, 100000), ("C17.fs_order_checks", 150, 3000)],
-    "C19": [("C19.encoder_checks", 30000, 1000000), ("C19.query_checks", 3000, 80000), ("C19.row_checks", 1000, 30000), ("C19.date_checks", 1000, 30000), ("C19.exhaustive_chunks", 28, 36)],
+    "C17": [("C17.faults_raised_and_propagated", 1000, 100000), ("C17.structure_checks", 1000, 100000), ("C17.forward_comparisons", 1000, 100000), ("C17.fs_order_checks", 150, 3000), ("C17.backward_is_first_run", 150, 3000)],
+    "C19": [("C19.encoder_checks", 30000, 1000000), ("C19.query_checks", 3000, 80000), ("C19.row_checks", 1000, 30000), ("C19.date_checks", 1000, 30000), ("C19.exhaustive_chunks", 28, 36), ("C19.encoder_checks_after_in_place_change", 3000, 80000), ("C19.query_rounds_after_in_place_change", 300, 8000)],
     "C20": [("C20.parent_runs", 200, 5000), ("C20.configurations", 300, 8000), ("C20.refusal_checks", 60, 1500), ("C20.result_path_used_again", 100, 3000)],
     "C06": [("C06.pairs_examined", 1000, 30000), ("C06.none_checks", 1000, 30000)],
     "C07": [("C07.resource_step_checks", 20000, 500000), ("json_resumed_runs", 15, 400), ("resimulated_runs", 40, 1000)],
